@@ -1,8 +1,9 @@
 #!/bin/bash
-# usage: baseline.sh [repo dir]  — runs the repository's test command and compares with the stable baseline
+# usage: baseline.sh <worktree>  — runs the repository's test command there and compares with the stable baseline
 D=${1:-/repo}
-cd $D && go test -mod=mod -json -vet=off -count=1 -timeout 25m ./... > /tmp/baseline.$$.json 2>/dev/null
-python3 - /tmp/baseline.$$.json <<'PY'
+export TMPDIR=/tmp/gsv-baseline-tmp-$(basename $D); mkdir -p $TMPDIR
+cd $D && go test -mod=mod -p 4 -json -vet=off -count=1 -timeout 25m ./... > $TMPDIR/baseline.json 2>/dev/null
+python3 - $TMPDIR/baseline.json <<'PY'
 import json,sys
 b=json.load(open('/root/.vp/BASELINE.json'))
 stable=set(b['stable_pass'])
@@ -16,4 +17,4 @@ missing=sorted(stable-passed)
 print("stable:",len(stable),"passed now:",len(passed),"stable tests not passing:",len(missing))
 for m in missing[:40]: print("  MISSING",m)
 PY
-rm -f /tmp/baseline.$$.json
+rm -rf $TMPDIR
